@@ -459,6 +459,46 @@ func ruleDataSource(c *Ctx) {
 	if n == 0 {
 		R.Ob("newDataReader/source is Conn.text.R", c.P.Pos(nd.Pos()), false, "newDataReader does not initialise the reader's source")
 	}
+	// the automaton starts at the beginning of a line: outside Read (and the helpers it calls) the state field is
+	// never written, or only with the zero value the table's initial state stands for
+	readFns := map[*ssa.Function]bool{}
+	if rd := c.A.Func("(*dataReader).Read"); rd != nil {
+		var add func(f *ssa.Function, depth int)
+		add = func(f *ssa.Function, depth int) {
+			if readFns[f] || depth > 3 {
+				return
+			}
+			readFns[f] = true
+			for _, g := range withClosures(f) {
+				readFns[g] = true
+			}
+			allInstrs(f, func(in ssa.Instruction) {
+				if cc := callCommon(in); cc != nil {
+					if g := staticCallee(cc); g != nil && inSmtp(g) && g.Blocks != nil {
+						add(g, depth+1)
+					}
+				}
+			})
+		}
+		add(rd, 0)
+	}
+	nInit := 0
+	for _, f := range c.P.AllFuncs() {
+		if readFns[f] {
+			continue
+		}
+		allInstrs(f, func(in ssa.Instruction) {
+			if fld, base, v := storedField(in); fld != nil && fld.Name() == "state" {
+				if typeShort(base.Type()) != "*dataReader" {
+					return
+				}
+				nInit++
+				k, isK := constInt(v)
+				R.Ob(c.siteKey(in, "initial state is line start"), c.P.InstrPos(in), isK && k == 0, "dataReader.state written outside Read with "+describe(v)+": the message does not start in the beginning-of-line state (a leading '.<CRLF>' or a stuffed first line is mishandled)")
+			}
+		})
+	}
+	R.Ob("dataReader.state/initialised to line start", c.P.Pos(nd.Pos()), true, fmt.Sprintf("%d explicit initialisations, all checked", nInit))
 	// hand-off: argument 0 of Data / LMTPData in functions using newDataReader is the newDataReader result
 	for _, l := range []string{lData, lLMTPData} {
 		for _, site := range c.Sites(l) {
